@@ -214,6 +214,29 @@ func CheckOp(c *Ctx, req mon.OpReq, exp Expect, viaModel bool, mo mon.ModelOpts,
 			report(c, "api, attribute list in another order", shuffled, exp, os, v, known)
 		}
 	}
+	if c.Idx%32 == 18 && ok && len(req.Attrs) > 0 {
+		// attributes without their type field (as hand-built nodes and IR-1 files have them; the
+		// value fields are unchanged): honoured as before or refused, never silently ignored
+		untyped := req
+		untyped.Attrs = make([]*mon.Attr, len(req.Attrs))
+		for i, a := range req.Attrs {
+			// (field by field: proto.Clone drops a float field holding -0)
+			untyped.Attrs[i] = &mon.Attr{Name: a.Name, RefAttrName: a.RefAttrName, DocString: a.DocString, F: a.F, I: a.I, S: a.S, T: a.T, G: a.G,
+				SparseTensor: a.SparseTensor, Tp: a.Tp, Floats: a.Floats, Ints: a.Ints, Strings: a.Strings, Tensors: a.Tensors, Graphs: a.Graphs,
+				SparseTensors: a.SparseTensors, TypeProtos: a.TypeProtos}
+		}
+		expU := exp
+		if expU.Kind == MustEqual {
+			expU.Kind = MayRefuse
+		}
+		ou, _ := mon.RunOpAPI(untyped)
+		c.Eval(1)
+		c.Count("untyped-attribute-variants", 1)
+		if v := Judge(expU, ou); !v.OK {
+			ok = false
+			report(c, "api, attributes without their type field", untyped, expU, ou, v, known)
+		}
+	}
 	if c.Idx%64 == 2 && ok {
 		// what an operator's introspection returns belongs to the caller: the entries of the
 		// constraint list of ONE instance are replaced, then the request runs on a fresh one
@@ -283,7 +306,36 @@ func CheckOp(c *Ctx, req mon.OpReq, exp Expect, viaModel bool, mo mon.ModelOpts,
 			report(c, "model, behind a node with an omitted output", req, exp, ou, v, known)
 		}
 	}
-	if viaModel && c.Idx%8 == 0 && exp.Kind == MustEqual && len(exp.Want) > 0 && exp.Want[0] != nil {
+	if viaModel && c.Idx%16 == 8 && mo.InitMask != 0 {
+		// the caller's map also holds tensors named like the model's constants (initializers
+		// that are not graph inputs), with other contents: they replace nothing
+		g, feed := mon.BuildOpModel(req, mo)
+		strays := 0
+		for _, it := range g.Inits {
+			if it.T == nil || it.T.DT == ref.Str || len(it.T.Bits) == 0 {
+				continue
+			}
+			other := it.T.Clone()
+			for i := range other.Bits {
+				other.Bits[i] = it.T.Bits[(i+1)%len(it.T.Bits)]
+			}
+			if it.T.DT.IsFloat() {
+				other.Bits[0] = ref.EncF(it.T.DT, 7.5)
+			}
+			feed[it.Name] = other
+			strays++
+		}
+		if strays > 0 {
+			ost := mon.RunGraph(g, feed)
+			c.Eval(1)
+			c.Count("models-run-with-caller-entries-named-like-initializers", 1)
+			if v := Judge(exp, ost); !v.OK {
+				ok = false
+				report(c, "model, the caller's map also holds tensors named like the model's (non-input) initializers", req, exp, ost, v, known)
+			}
+		}
+	}
+	if viaModel && c.Idx%16 == 0 && exp.Kind == MustEqual && len(exp.Want) > 0 && exp.Want[0] != nil {
 		// the node between two other nodes: its data operand and its first result are
 		// intermediate values of the graph (neither caller tensors, weights nor outputs)
 		if g, feed, made := sandwichModel(req, mo, exp.Want[0].T); made {
